@@ -476,7 +476,9 @@ func C02_GenMonitor() {
 	vf.Reach("genmonitor")
 }
 
-func c02Monitor(p Prog, mayReject bool) {
+func c02Monitor(p Prog, mayReject bool) { c02MonitorB(p, mayReject, 4000000) }
+
+func c02MonitorB(p Prog, mayReject bool, runBudget int64) {
 	s := tengo.NewScript([]byte(p.Src))
 	progInputs(s, p)
 	c, err := s.Compile()
@@ -491,7 +493,7 @@ func c02Monitor(p Prog, mayReject bool) {
 	m := &c02Mon{vm: vm, bounds: map[*byte][]bool{}, heights: map[*byte]map[int]int{}}
 	vf.SetHook("poll", m.poll)
 	var rerr error
-	res := vf.Guard(func() { rerr = vm.Run() }, 4000000)
+	res := vf.Guard(func() { rerr = vm.Run() }, runBudget)
 	vf.SetHook("poll", nil)
 	// a script-level division by zero surfaces as Go's (recoverable) run-time
 	// panic; it is an error of the script, not an internal fault of the code
@@ -516,4 +518,24 @@ func contains(s, sub string) bool {
 		}
 	}
 	return false
+}
+
+// C02_LargeFunction: function bodies whose instruction stream crosses the
+// 16-bit offset boundary (jump operands above 65535, source-map keys above
+// 65535): n repetitions of a four-instruction statement (9 bytes), n chosen
+// around 65536/9, followed by one of four endings that jump to or over the
+// end of the body. The static verifier decides well-formedness for both
+// directions of the final branch; the run (input c symbolic) exercises it.
+func C02_LargeFunction() {
+	n := 7281 + vf.Choice("n", 2) // 7281..7282 statements: 65529..65538 bytes before the ending
+	endings := []string{"if c { return r }", "if c { return r } else { r += 2 }", "return c ? r : 0"}
+	ending := endings[vf.Choice("ending", len(endings))]
+	body := ""
+	for k := 0; k < n; k++ {
+		body += "r += 1\n"
+	}
+	src := "f := func(c) {\nr := 0\n" + body + ending + "\n}\nout := f(c)"
+	p := Prog{Name: "large-function n=" + strconv.Itoa(n) + " ending `" + ending + "`", Src: src}
+	c02MonitorB(p, false, 100000000)
+	vf.Reach("large")
 }
